@@ -2,3 +2,4 @@ import PdeVerif.Drv.All
 import PdeVerif.Props.C09
 import PdeVerif.Props.C02
 import PdeVerif.Props.C01
+import PdeVerif.Props.C05
